@@ -238,7 +238,10 @@ def run(ck):
         pp = os.path.join(d, "pp", u + ".c")
         preprocess(ck, src, u, pp)
         il = os.path.join(d, "il", u + ".ssa")
-        rc, err = progrun.compile_c(cc, "x86_64-sysv", pp, il)
+        try:
+            rc, err = progrun.compile_c(cc, "x86_64-sysv", pp, il, timeout=120)
+        except subprocess.TimeoutExpired:
+            rc, err = "timeout", "cproc-qbe did not finish within 120 s"
         return (u, pp, il, rc, err)
     units = progrun.run_many(build_unit, UNITS)
     for u, pp, il, rc, err in units:
